@@ -280,6 +280,9 @@ def gen_field(rnd, quote, depth):
         spec = rnd.choice([":" + other + "^5", ":" + other, ":>" + other + "{w}" + other])
     elif r < 0.12 and len(quote) == 3:
         spec = rnd.choice([":\n>3", ":>3\n", ":\n{w}\n"])  # a spec of a triple-quoted f-string may span lines
+    elif r < 0.16 and len(quote) == 3:
+        q = quote[0]  # one or two quote characters do not end a triple-quoted literal, in a spec either
+        spec = rnd.choice([":" + q + ">5", ":" + q + q + "^{w}", ":>" + q + "{w}" + q + " ", ":x" + q + "x"])
     if len(quote) == 3 and rnd.random() < 0.1:
         e = e + rnd.choice(["\n", "  # c\n", "\n  "])
     return "{" + e + dbg + conv + spec + "}"
@@ -312,7 +315,9 @@ def gen_fstring(rnd, depth=0, force_quote=None):
 
 NEIGHBOURS = ["x = {F}\n", "print({F}, {G})\n", "{F}; {{1}}\n", "d = {{{F}: 1}}\n", "x = {F} 'tail'\n", "x = 'head' {F}\n", "x = {F} {G}\n", "x = ({F}\n     {G})\n", "x = {F}  # {{c}}\n",
               "f({F}, k={G}, z={{'a': {F}}})\n", "x = [{F} for i in y if {G}]\n", "assert {F}, {G}\n", "x = {F}.format(1)\n", "x = {F} + {G} % 3\n", "x = {F}; y = {{}}\n", "x = {F} if {G} else {{}}\n",
-              "x = 'a' {F} 'b' {G} 'c'\n", "x = {F}[0]\n", "lambda: {F}\n", "x = u'k' {F}\n" if False else "x = r'\\k' {F}\n", "def f():\n    return {F}\n", "x = {F} \\\n    {G}\n"]
+              "x = 'a' {F} 'b' {G} 'c'\n", "x = {F}[0]\n", "lambda: {F}\n", "x = u'k' {F}\n" if False else "x = r'\\k' {F}\n", "def f():\n    return {F}\n", "x = {F} \\\n    {G}\n",
+              # empty literals next to an f-string leave no Constant behind
+              "x = {F} ''\n", "x = \"\" {F}\n", "x = '' {F} '' 'b' \"\"\n", "x = {F} f''\n", "x = ({F}\n     ''\n     {G})\n", "x = {F} \"\"\"\"\"\" {G}\n"]
 
 
 def gen_case(rnd):
@@ -324,7 +329,8 @@ FIXED = ["x = f'a'\n", "x = f''\n", "x = f'{a}'\n", "x = f'{a}{b}'\n", "x = f'a{
          "x = f'{a!r}'\n", "x = f'{a=}'\n", "x = f'{a = }'\n", "x = f'{a=!r:>10}'\n", "x = f'{a:{b}.{c}}'\n", "x = f'{a:}'\n", "x = f'{f\"{b}\"}'\n", "x = f\"{f\"{b}\"}\"\n", "x = f'''{a\n}'''\n",
          "x = f'''a\n{b}\nc'''\n", "x = f'{a}' 'b'\n", "x = 'a' f'{b}'\n", "x = f'a' f'b'\n", "x = f'{a}' f'{b}'\n", "x = rf'\\d{a}'\n", "x = f'\\N{BULLET}{a}'\n", "x = f'{{'\n", "x = f'}}'\n",
          "x = f'{a:%Y-%m-%d}'\n", "x = f'{a!s:^{w}}'\n", "x = f'{a:{b:{c}}}'\n", "x = f'{{{a}}}'\n", "x = f'{a}}}'\n", "x = f'{{{{'\n", "x = f'{\"}\"}'\n", "x = f'{a}' \\\n  f'{b}'\n", "x = f'{d[\"k\"]}'\n",
-         "x = f'{a,}'\n", "x = f'{*a,}'\n", "x = f\'\'\'{a=\n\n}\'\'\'\n", "x = f\'\'\'{a =\n  \n !r:>3}\'\'\'\n", "x = f\'\'\'z{a + 1 =\n\n\n:>10}b\'\'\'\n", "x = f'{lambda: 0}'\n" if False else "x = f'{(lambda: 0)}'\n", "x = f'{a:\\n}'\n" if False else "x = f'{a:x}'\n", "x = F'{a}'\n", "x = fR'{a}\\n'\n", "x = f'é{a}ü'\n", "x = f'{é}'\n"]
+         "x = f'{a,}'\n", "x = f'{*a,}'\n", "x = f\'\'\'{a=\n\n}\'\'\'\n", "x = f\'\'\'{a =\n  \n !r:>3}\'\'\'\n", "x = f\'\'\'z{a + 1 =\n\n\n:>10}b\'\'\'\n", "x = f'{lambda: 0}'\n" if False else "x = f'{(lambda: 0)}'\n", "x = f'{a:\\n}'\n" if False else "x = f'{a:x}'\n", "x = F'{a}'\n", "x = fR'{a}\\n'\n", "x = f'é{a}ü'\n", "x = f'{é}'\n",
+         "x = f'{a}' ''\n", "x = '' f'{a}'\n", "x = f'' ''\n", "x = '' f'{a}' '' 'b' ''\n", "x = f'''{a:'>5}'''\n", 'x = f"""{a:"">5}"""\n', "x = f'''{a:>5}' '''\n"]
 
 
 def run_shard(shard):
